@@ -12,11 +12,8 @@ impl RelativeJump {
         } else {
             (dest - origin) as isize
         };
-        if i == 0 {
-            Self(1)
-        } else {
-            Self(i as i32)
-        }
+        // distance 0 is a loop with an empty body jumping to itself
+        Self(i as i32)
     }
 
     pub fn uninit() -> Self {
